@@ -165,7 +165,7 @@ func vmalformed(r *vrand, i int) []byte {
 	case 8:
 		var sb bytes.Buffer
 		for j := 0; j < 1+r.intn(30); j++ {
-			sb.WriteString([]string{"Copyright 2020 Foo\n", "copyright (c) [yyyy] x\n", "2020-01-02\n", "2020-jan-02\n", "  Copyright (C) 1999, Bar Inc.\n", "1.\n", "a. thing\n", "iv) stuff\n", "1.2.3 version\n", "* bullet · dot\n", "(c) 2001\n", "https://x.y/z httpsfoo\n"}[r.intn(12)])
+			sb.WriteString([]string{"Copyright 2020 Foo\n", "copyright (c) [yyyy] x\n", "2020-01-02\n", "2020-jan-02\n", "  Copyright (C) 1999, Bar Inc.\n", "1.\n", "a. thing\n", "iv) stuff\n", "1.2.3 version\n", "* bullet · dot\n", "(c) 2001\n", "https://x.y/z httpsfoo\n", "see (https://www.apache.org/) or url:https://a.b/c \"https://q\"\n", "a) item (b) x\n", "sec-\ntion 2. m. y. name\n", "lic-\nense is Copyright (C) 2003 Foo\n"}[r.intn(16)])
 		}
 		return sb.Bytes()
 	case 9:
@@ -175,6 +175,21 @@ func vmalformed(r *vrand, i int) []byte {
 	default:
 		return []byte(voovBlock(r, r.intn(5)) + "Permission is hereby granted, free of charge\n" + voovBlock(r, r.intn(3)))
 	}
+}
+
+// vnamed returns the corpus documents with the given keys (curated inputs that are known to
+// exercise particular mechanisms: URLs in parentheses, hyphenated line breaks, list markers …).
+func vnamed(keys ...string) []vdoc {
+	vloadFiles()
+	var out []vdoc
+	for _, k := range keys {
+		for _, d := range vcorpus {
+			if vkey(d) == k {
+				out = append(out, d)
+			}
+		}
+	}
+	return out
 }
 
 func vkey(d vdoc) string { return fmt.Sprintf("%s/%s/%s", d.cat, d.name, d.variant) }
